@@ -4,13 +4,22 @@
 mod common;
 mod strings;
 mod suite_cmp;
+mod suite_axes;
 mod suite_entity;
+mod suite_ffixed;
 mod suite_forest;
 mod suite_fspec;
 mod suite_rt;
 mod idmap_hist;
 mod idmap_oracle;
 mod suite_idmap;
+mod ser_gen;
+mod ser_oracle;
+mod ser_ws;
+mod suite_ser;
+mod suite_fws;
+mod scope_oracle;
+mod suite_scope;
 mod suite_tree;
 mod tree;
 
@@ -37,6 +46,11 @@ fn main() {
         "rt" => suite_rt::run(seed, count, tier, &mut sink),
         "exec-forest" => suite_forest::exec_stdin(&mut sink),
         "idmap" => suite_idmap::run(seed, count, tier, &mut sink),
+        "axes" => suite_axes::run(seed, count, tier, &mut sink),
+        "ser" => suite_ser::run(seed, count, tier, &mut sink),
+        "fws" => suite_fws::run(seed, count, tier, &mut sink),
+        "scope" => suite_scope::run(seed, count, tier, &mut sink),
+        "ffixed" => suite_ffixed::run(seed, count, tier, &mut sink),
         _ => {
             eprintln!("unknown suite {}", suite);
             std::process::exit(2);
